@@ -592,6 +592,9 @@ func (g *gen) fixedSize() int {
 	if g.r.Chance(1, 12) {
 		return []int{255, 256, 257, 300, 512, 1024, 4096}[g.r.Intn(7)]
 	}
+	if g.r.Chance(1, 15) {
+		return 0 // char[0] / zchar[0]: legal, and an edge every generator has an opinion about
+	}
 	return 1 + g.r.Intn(20)
 }
 
